@@ -7,6 +7,7 @@ import (
 	"hash/crc32"
 	"io"
 	"os"
+	"sort"
 	"strings"
 	"sync"
 
@@ -52,7 +53,7 @@ func (c11) Runs(tier string) int {
 func (c11) New() interface{} { return &c11Case{} }
 func (c11) CrashProne() bool { return true }
 func (c11) Rule() string {
-	return "targets: bgzf, bam, sam (text: reader, record/aux/CIGAR/header parsers), bai, csi, tabix, fai, fasta (NewIndex + File.SeqRange), cram (definition, containers, blocks, Value); a valid encoding (independent encoders for BGZF/BAM/CRAM, the library's own writers for SAM text and the indexes) is stored on a simulated file, hit by 1..4 stored-state faults {bit flip, byte substitution, truncation, zeroed 512-byte sector, misdirected sector, duplicated tail} and consumed as a stream with short reads and optionally a read error, BGZF/BAM with rd>1 under tape-chosen schedules. Oracle: no panic in any goroutine, no deadlock/livelock, no fatal runtime error or 30 s stall of the worker; every value returned without error is passed to the library's accessors, formatters, writers and index builders, which must not panic either. Enumerations run before the seeded cases: 960 single structural edits of one BAM record's auxiliary area, and every 4-byte window (quick: every window of the first 200 bytes and the aligned ones up to byte 600; thorough: all) of one BAI, one CSI, one tabix and one CRAM image and one uncompressed BAM stream (header and records, wrapped into valid BGZF members afterwards) overwritten with each of 6 boundary values; and every column of a SAM record line (plus an appended field) replaced by each of 66 boundary spellings of numbers, names, CIGARs, sequences and aux fields. Arbitrary byte strings far from a valid encoding are NOT explored. non-trivial: the decoder read at least one faulted byte and the outcome differs from the fault-free outcome; distinct = (case, schedule signature)"
+	return "targets: bgzf, bam, sam (text: reader, record/aux/CIGAR/header parsers), bai, csi, tabix, fai, fasta (NewIndex + File.SeqRange), cram (definition, containers, blocks, Value); a valid encoding (independent encoders for BGZF/BAM/CRAM, the library's own writers for SAM text and the indexes) is stored on a simulated file, hit by 1..4 stored-state faults {bit flip, byte substitution, truncation, zeroed 512-byte sector, misdirected sector, duplicated tail} and consumed as a stream with short reads and optionally a read error, BGZF/BAM with rd>1 under tape-chosen schedules. Oracle: no panic in any goroutine, no deadlock/livelock, no fatal runtime error or 30 s stall of the worker; every value returned without error is passed to the library's accessors, formatters, validators (Header.Validate), writers and index builders (records in coordinate order, a third of the time piled up around a 16 KiB tile boundary) and queried (index Chunks incl. empty intervals), which must not panic or hang either. Enumerations run before the seeded cases: 960 single structural edits of one BAM record's auxiliary area, and every 4-byte window (quick: every window of the first 200 bytes and the aligned ones up to byte 600; thorough: all) of one BAI, one CSI, one tabix and one CRAM image and one uncompressed BAM stream (header and records, wrapped into valid BGZF members afterwards) overwritten with each of 6 boundary values; and every column of a SAM record line (plus an appended field) replaced by each of 66 boundary spellings of numbers, names, CIGARs, sequences and aux fields. Arbitrary byte strings far from a valid encoding are NOT explored. non-trivial: the decoder read at least one faulted byte and the outcome differs from the fault-free outcome; distinct = (case, schedule signature)"
 }
 
 // "-inner" targets apply the faults to the payload BEFORE it is wrapped in a
@@ -338,6 +339,29 @@ func c11Records(t *Tape, h HdrSpec, n int) []RecSpec {
 		r.Flags &^= 0x4 // mapped unless unplaced
 		rs = append(rs, r)
 	}
+	if t.Chance("work", 1, 3) {
+		// reads piled up around a 16 KiB boundary of the first reference
+		// (the tile width of the BAI linear index)
+		base := 16384 * (1 + t.Draw("work", 4))
+		for i := range rs {
+			if p := base - 200 + t.Draw("work", 300); p < h.Refs[0].Len {
+				rs[i].RefID, rs[i].Pos = 0, p
+			}
+		}
+	}
+	if t.Bool("work") {
+		// coordinate order, unplaced last: what an index builder is fed
+		sort.SliceStable(rs, func(i, j int) bool {
+			a, b := rs[i], rs[j]
+			if (a.RefID < 0) != (b.RefID < 0) {
+				return b.RefID < 0
+			}
+			if a.RefID != b.RefID {
+				return a.RefID < b.RefID
+			}
+			return a.Pos < b.Pos
+		})
+	}
 	return rs
 }
 
@@ -617,6 +641,9 @@ func exerciseRecord(rec *sam.Record, h *sam.Header, bw *bam.Writer, idx *bam.Ind
 	}
 	rec.Tag([]byte("NM"))
 	_ = sam.IsValidRecord(rec)
+	if h != nil {
+		h.Validate(rec)
+	}
 	if bw != nil {
 		bw.Write(rec)
 	}
@@ -729,6 +756,8 @@ func decode(x *Exec, c *c11Case, file *File) (outcome string) {
 				idx.ReferenceStats(i)
 				idx.Chunks(r, 0, 1<<29-1)
 				idx.Chunks(r, 1000, 2000)
+				idx.Chunks(r, 0, 0)
+				idx.Chunks(r, 700, 700)
 			}
 		}
 		var out bytes.Buffer
@@ -748,6 +777,8 @@ func decode(x *Exec, c *c11Case, file *File) (outcome string) {
 			// altered) geometry would enumerate an astronomic number of bins
 			idx.Chunks(i, 0, 1000)
 			idx.Chunks(i, 1000, 2000)
+			idx.Chunks(i, 0, 0) // empty intervals
+			idx.Chunks(i, 700, 700)
 		}
 		var out bytes.Buffer
 		csi.WriteTo(&out, idx)
@@ -764,6 +795,8 @@ func decode(x *Exec, c *c11Case, file *File) (outcome string) {
 				idx.ReferenceStats(i)
 			}
 			idx.Chunks(name, 0, 1<<29-1)
+			idx.Chunks(name, 0, 0)
+			idx.Chunks(name, 700, 700)
 		}
 		var out bytes.Buffer
 		tabix.WriteTo(&out, idx)
@@ -945,7 +978,7 @@ func cramInner(seed uint32, faults []StoreFault) []byte {
 	hd := binary.LittleEndian.AppendUint32(nil, uint32(len(text)))
 	hd = append(hd, text...)
 	hd, _ = applyFaults(hd, faults)
-	method := byte(t.Pick("work", 0, 0, 0, 1, 2, 3, 4))
+	method := byte(t.Pick("work", 0, 0, 0, 1, 2, 3, 4, 0, 0, 1, 5, 9)) // 5 and 9: not a method of the specification
 	blk := cramBlock(method, 0, 0, hd)
 	img = append(img, cramContainer(0, 0, 0, 0, [][]byte{blk})...)
 	for i, n := 0, t.Draw("work", 3); i < n; i++ {
